@@ -192,6 +192,10 @@ Definition cstep (mutex wait_ready : bool) (c : conn) (a : actor) : conn :=
       end
   end.
 
+(* does the code wait for readiness?  Regenerated from Client::send_request's source on every
+   run (tools/gen_consts.py: `self.sender.ready().await` before `self.sender.send_request(`) *)
+Definition code_waits_ready : bool := Consts.upstream_waits_ready =? 1.
+
 Definition crun (mutex wait_ready : bool) (c : conn) (sched : list actor) : conn :=
   fold_left (cstep mutex wait_ready) sched c.
 
